@@ -237,6 +237,6 @@ def plan(tier):
                % ("; ".join("%s (%d bytes, every split)" % (n, sum(f.length for f in fr)) for n, fr in streams),
                   "; ".join(n for n, _ in pipelines)))
     p.not_covered = "three or more reads, longer streams, inline commands, the live socket and the dispatch itself"
-    p.per_harness_timeout = 400 if tier == "quick" else 1200
-    p.total_timeout = 1700 if tier == "quick" else 7000
+    p.per_harness_timeout = 900 if tier == 'quick' else 1200
+    p.total_timeout = 2700 if tier == 'quick' else 7000
     return p
